@@ -10,7 +10,7 @@ SM_NOTE = ("Trusted: TLC; the HAL simulator clock (exact on the 1/64 s grid) and
            "harness/drivers/sm_driver.py (public API and user callbacks only). Bounds: exhaustive runs are bounded in "
            "behaviour length and machine time (evidence.tlc_runs); a state function performs up to 2 (exhaustive) / 3 (simulated) / 4 (random) in-state "
            "actions; exhaustive exploration lets neither the default state's function request a transition nor a state function "
-           "select a state after the machine stopped under it (the random histories do both). State functions may raise: caught exceptions are judged like any other step; once an exception has "
+           "select a state after the machine stopped under it (the random histories do both). The random histories also chain next_state_now() up to 13 frames deep inside one iteration and write negative durations to the duration topics (exhaustive runs: durations >= 0, nesting as bounded by the behaviour length). State functions may raise: caught exceptions are judged like any other step; once an exception has "
            "left execute() the behaviour is still compared with the specification step by step but no longer judged by the "
            "invariants (the properties do not quantify over raising state functions).")
 CLAIMED = {
